@@ -19,6 +19,39 @@ class FakeResult:
         return [dict(c) for c in self._c]
 
 
+def make_result(counts_list, circuits, salt, single_as_dict=True):
+    """the Result handed to the fitters: even salt -> the duck-typed FakeResult, odd salt -> a genuine qiskit.result.Result built with
+    Result.from_dict (hexadecimal keys, experiment headers carrying the circuit's name and classical register size, as a backend
+    produces them; exact probabilities / rescaled counts are kept as given)"""
+    if salt % 2 == 0:
+        return FakeResult(counts_list, single_as_dict=single_as_dict)
+    from qiskit.result import Result
+    exps = []
+    for c, qc in zip(counts_list, circuits):
+        m = max(1, int(qc.num_clbits))
+        exps.append({"shots": 1, "success": True, "data": {"counts": {hex(int(k, 2)): v for k, v in c.items()}},
+                     "header": {"name": qc.name, "memory_slots": m, "creg_sizes": [["c", m]]}})
+    return Result.from_dict({"backend_name": "exact", "backend_version": "0", "qobj_id": "0", "job_id": "0", "success": True, "results": exps})
+
+
+def job_with_decoys(counts, qc, salt):
+    """one job holding several experiments (e.g. several measurement circuits derived from one preparation, all with its name): the
+    wanted experiment sits at index k among decoys with other statistics over the same outcomes.  Returns (result, k)."""
+    K = 1 + (salt // 2) % 3
+    k = (salt // 6) % K
+    keys = list(counts)
+    total = sum(counts.values())
+    lists = []
+    for j in range(K):
+        if j == k:
+            lists.append(dict(counts))
+        else:                         # a different distribution: all weight on one outcome that depends on j
+            d = {kk: (0 * total) for kk in keys}
+            d[keys[(7 * j + salt) % len(keys)]] = total
+            lists.append(d)
+    return make_result(lists, [qc] * K, salt, single_as_dict=bool((salt // 2) % 2)), k
+
+
 def key_of(index_bits, N):
     """little-endian key string: qubit q at position -1-q"""
     return "".join(str(index_bits[q]) for q in range(N - 1, -1, -1))
